@@ -5,9 +5,7 @@
 #include <stdint.h>
 #include <stddef.h>
 
-typedef unsigned int size_type;          /* celeritas::size_type */
-typedef double real_type;                /* celeritas::real_type */
-typedef unsigned long long ull_int;      /* celeritas::ull_int */
+#include "celer_types.h"
 typedef _Bool bool;
 #define true 1
 #define false 0
